@@ -880,7 +880,12 @@ func (env *SpecEnv) evalCall(e *ast.CallExpr) (TV, error) {
 			return TV{mk(SInt, "gs.len", x.t), types.Typ[types.Int]}, nil
 		}
 		if strings.HasPrefix(x.t.sort, "Slice_") {
-			return TV{slLen(x.t), types.Typ[types.Int]}, nil
+			l := slLen(x.t)
+			if !strings.Contains(l.s, "!q") {
+				// type invariant of every slice value the specification talks about
+				vc.axiom(Ge(l, IntLit(0)).s)
+			}
+			return TV{l, types.Typ[types.Int]}, nil
 		}
 		return TV{}, fmt.Errorf("len of %s", x.t.sort)
 	case "ghost":
@@ -1349,6 +1354,23 @@ func (env *SpecEnv) methodCall(recv TV, name string, args []TV) (TV, error) {
 }
 
 func (env *SpecEnv) pkgFuncCall(pkg, name string, args []TV) (TV, error) {
+	// library functions on the pure list: the same uninterpreted symbol the code-side call uses
+	if pk := env.importedPkg(pkg); pk != nil {
+		full := pk.Path() + "." + name
+		if env.ex.P.isPure(full) {
+			if f, ok := pk.Scope().Lookup(name).(*types.Func); ok {
+				sig := f.Type().(*types.Signature)
+				var ts []T
+				for _, a := range args {
+					ts = append(ts, a.t)
+				}
+				rs := env.ex.pureCall(env.st, full, sig, ts)
+				if len(rs) > 0 {
+					return TV{rs[0], sig.Results().At(0).Type()}, nil
+				}
+			}
+		}
+	}
 	switch pkg + "." + name {
 	case "time.Unix":
 		// time.Unix(0, n)
